@@ -36,7 +36,7 @@ func init() {
 			"the input dimension (sizes, NAL types, times) is sampled; what simulation adds is the join point, the interleaving of muxer, delivery and viewer writes, and close-while-writing",
 			"a viewer may receive a prefix only (the stream is closed while tags are still queued)",
 		},
-		RequiredProbes: []string{"c08.join-with-replay", "c08.audio-older-than-first", "c08.websocket-flv", "c08.other-stream-watched-before"},
+		RequiredProbes: []string{"c08.join-with-replay", "c08.audio-older-than-first", "c08.websocket-flv", "c08.other-stream-watched-before", "c08.aac-frame-looks-like-adts"},
 	})
 }
 
@@ -126,6 +126,11 @@ func buildC08(tier string) sim.Scenario {
 					}
 				}
 				pl := blob(5000+i, 1+tp.Choose(400))
+				if len(pl) > 9 && tp.OneIn(6) {
+					// a raw AAC frame whose first bytes happen to look like an ADTS sync word: it is still the frame, whole
+					pl[0], pl[1] = 0xff, []byte{0xf1, 0xf0, 0xf9}[tp.Choose(3)]
+					w.Probe("c08.aac-frame-looks-like-adts")
+				}
 				frames = append(frames, c08Frame{f: &codec.Frame{MediaType: codec.MediaTypeAudio, Dts: ms * 1e6, Pts: ms * 1e6, Payload: pl}, ms: ms})
 				continue
 			}
